@@ -232,6 +232,24 @@ def _run(case, rec):
         for k, o in enumerate(OFFSETS):
             _judge_tt(rec, float(res[k]), refs[k], 'inaccurate', 'per-pixel incident beam', offset=o)
 
+    # A''': both beams are arrays over *different* dimensions (several sources x several pixels): outer product of angles
+    rec.states += 1
+    rec.transitions += 1
+    inc = sc.concat([gc.vec(b1, u1), gc.vec(tuple(2.0 * x for x in b1), u1)], 'source')
+    sca = gc.vecs(b2s, u2)
+    for first, second, label in ((inc, sca, 'incident[source] x scattered[pixel]'), (sca, inc, 'incident[pixel] x scattered[source]')):
+        try:
+            r = bl.two_theta(incident_beam=first, scattered_beam=second)
+        except sc.DimensionError as e:
+            rec.viol(SITE_TT, 'raises_outer_product_layout', f'two_theta({label}) raises DimensionError: {e}', layout=label)
+            continue
+        rec.cls('outer_product_layout_ok')
+        pix_dim = sca.dims[0]
+        r = r.transpose(['source', pix_dim]).values
+        for j in range(2):
+            for k, o in enumerate(OFFSETS):
+                _judge_tt(rec, float(r[j][k]), refs[k], 'inaccurate', label, offset=o)
+
     # D: positions -> beams, lengths, angle; kernels and data-array accessors
     u = u1
     for S in SAMPLES:
